@@ -213,34 +213,44 @@ def inline_unknown_helpers(prog, known):
     for _pass in range(2):
         for ci in list(prog.classes.values()):
             cands = {}
-            for name, h in ci.methods.items():
+            inherited = {}
+            for base_c in ci.mro:
+                if base_c.module is not ci.module:
+                    continue
+                for name, h in base_c.methods.items():
+                    inherited.setdefault(name, h)
+            for name, h in inherited.items():
                 if not name.startswith("_") or (name.startswith("__") and name.endswith("__")):
                     continue
+                if name.startswith("__") and h.cls is not ci:
+                    continue                              # name-mangled: only visible in its own class
                 if h.qual in known or h.is_classmethod or (h.self_name is None and not h.is_static):
                     continue
                 body = _single_exit(h.node)
                 if body is None or len(body) > 30:
                     continue
-                if len(prog.overrides(ci, name)) != 1:
+                if len(prog.overrides(h.cls, name)) != 1:
                     continue
-                mangled = "_%s%s" % (ci.name.lstrip("_"), name) if name.startswith("__") else name
+                mangled = "_%s%s" % (h.cls.name.lstrip("_"), name) if name.startswith("__") else name
                 if any(isinstance(x, ast.Attribute) and x.attr in (name, mangled) for x in ast.walk(h.node)):
                     continue                              # recursive
                 cands[name] = (h, body)
                 cands[mangled] = (h, body)
             # helpers that only decide a value are substituted as expressions wherever they are called
             ecands = {}
-            for name, h in ci.methods.items():
+            for name, h in inherited.items():
                 if not name.startswith("_") or (name.startswith("__") and name.endswith("__")) or h.qual in known or h.is_classmethod:
+                    continue
+                if name.startswith("__") and h.cls is not ci:
                     continue
                 if h.self_name is None and not h.is_static:
                     continue
-                if len(prog.overrides(ci, name)) != 1:
+                if len(prog.overrides(h.cls, name)) != 1:
                     continue
                 e = _as_expression(h.node)
                 if e is None:
                     continue
-                mangled = "_%s%s" % (ci.name.lstrip("_"), name) if name.startswith("__") else name
+                mangled = "_%s%s" % (h.cls.name.lstrip("_"), name) if name.startswith("__") else name
                 if any(isinstance(x, ast.Attribute) and x.attr in (name, mangled) for x in ast.walk(h.node)):
                     continue
                 ecands[name] = (h, e)
